@@ -34,6 +34,7 @@ def _pairs(rng, fr):
         (f"y ~ x + binary(g, '{s_g}'):z", f"y ~ x + B(g, '{s_g}'):z", "binary-inter"),
         ("y ~ x + offset(z)", None, "offset-col"),
         (f"y ~ x + offset({rng.choice([1, 2, 10])})", None, "offset-const"),
+        (f"y ~ x + offset({rng.choice([2.5, 0.5, 3.75, 0.25])})", None, "offset-const"),
         ("y ~ x + offset(z * 2)", None, "offset-expr"),
         ("y ~ x + offset(I(w + 1))", None, "offset-call"),
         ("prop(succ, n_trials) ~ x", "p(succ, n_trials) ~ x", "prop-col"),
